@@ -15,10 +15,10 @@ RULE = (
     "case = one of four modes. static-outline: font with component DAG (skipped bases at any depth, skipped inside skipped, mirrored references), skip list by "
     "argument or UFO lib, TTF/OTF, optionally compiled from a non-default layer in which the skipped glyph is drawn differently. static-layout: multi-script "
     "kerning font (groups, kerning keys and categories naming skipped glyphs). masters-union: compileInterpolatableTTFs on 2-3 UFOs whose lib skip lists differ. "
-    "variable-sparse: 2-master designspace with a sparse intermediate layer master for a skipped glyph nested inside another skipped glyph, skip list in the "
+    "variable-sparse: 2-4 master designspace (one axis, or two with the second axis' default at design coordinate 0) with a sparse intermediate layer master for a skipped glyph nested inside another skipped glyph, skip list in the "
     "designspace lib. Oracle = compile with and without the skip list: skipped names absent from glyph order, cmap, hmtx, GPOS coverages/classes; remaining glyphs keep "
     "relative order and advance; OTF outlines equal contour by contour (as a set; +-1 only at rounding boundaries under inexact transforms), TTF outlines within the "
-    "C02 bound of the source shape and point-for-point within 1 unit when no cubic is involved; kerning of in-run pairs and mark attachments between remaining "
+    "C02 bound of the source shape and point-for-point within 1 unit when no cubic is involved; kerning of in-run pairs (adjacent, and with a remaining non-spacing mark in between) and mark attachments between remaining "
     "glyphs equal; masters: union of the lists is skipped everywhere; variable: remaining glyphs render equally at master and intermediate locations (tolerance 2 units). "
     "Non-trivial = a skipped glyph is used as a component by a remaining glyph, or is a member of a kerning group used by a pair. Distinct = case hash."
 )
@@ -74,6 +74,18 @@ def _case(draw):
             skippable = names[:1]
         ingroups = [m for ms in spec["groups"].values() for m in ms if m in skippable]
         skip = draw(st.lists(st.sampled_from(ingroups * 2 + skippable), min_size=1, max_size=3, unique=True))
+        marks = [g for g in spec["glyphs"] if g["name"] in c05.MARKS]
+        if len(marks) >= 2 and draw(st.sampled_from([True, False])):
+            # explicit categories; every spacing mark is skipped and a non-spacing mark remains (the kern lookups then change from a mark filtering set to IgnoreMarks)
+            cats = spec["lib"].setdefault("public.openTypeCategories", {})
+            for g in marks:
+                cats[g["name"]] = "mark"
+            k = draw(st.integers(1, len(marks) - 1))
+            for g in marks[:k]:
+                g["width"] = draw(st.sampled_from([500, 250.5]))
+            for g in marks[k:]:
+                g["width"] = 0
+            skip = sorted(set(skip[:2]) - {g["name"] for g in marks[k:]} | {g["name"] for g in marks[:k]})
         # mark anchors so that mark positioning exists too - only together with explicit categories: kerning on glyphs that are GDEF
         # marks merely by feaLib inference is the known finding KF-C05-2 and would make both compiles differ for unrelated reasons
         for g in spec["glyphs"] if "public.openTypeCategories" in spec["lib"] else []:
@@ -114,6 +126,15 @@ def _case(draw):
         "sparse": {"k": 5, "loc": {"Weight": draw(st.sampled_from([300, 500, 700]))}, "names": draw(st.sampled_from([["inner"], ["inner"], ["inner", "plain"]]))},
         "lib": {},
     }
+    if draw(st.sampled_from([True, False])):
+        # second axis whose default design coordinate is 0: the sparse master then sits at a location with a zero coordinate
+        fam["axes"].append({"name": "Slant", "tag": "slnt", "minimum": -10, "default": 0, "maximum": 0})
+        for m in fam["masters"]:
+            m["loc"]["Slant"] = 0
+        fam["masters"].append({"k": 2, "loc": {"Weight": 0, "Slant": -10}})
+        if draw(st.booleans()):
+            fam["masters"].append({"k": 3, "loc": {"Weight": 1000, "Slant": -10}})
+        fam["sparse"]["loc"]["Slant"] = 0
     return {"mode": mode, "module": module, "fam": fam, "skip": skip, "flavour": draw(st.sampled_from(["ttf", "ttf", "cff2"]))}
 
 
@@ -280,6 +301,9 @@ def run_static_layout(case, ctx):
         return (not sc[g]) or bool(sc[g] & {"Zyyy", "Zinh"})
 
     npairs = 0
+    nacross = [0]
+    width = {g["name"]: g.get("width", 0) for g in spec["glyphs"]}
+    through = [n for n in rest if otl.gdef_class(full, n) == 3 and otl.gdef_class(sub, n) == 3 and not width[n]]
     for tag in sorted(tags):
         S_ = None if tag == "DFLT" else c05.script_of_tag(tag)
         for g1, g2 in itertools.product(rest, rest):
@@ -295,11 +319,25 @@ def run_static_layout(case, ctx):
             npairs += 1
             if a[2] != b[2]:
                 raise Violation("kerning between remaining glyphs changed by skipping other glyphs", tag=tag, pair=[g1, g2], without_skip=a, with_skip=b, skip=skip)
+            # the same pair with a remaining non-spacing mark in between (kerning looks through such marks in both compiles)
+            for m in through:
+                if m in (g1, g2) or otl.gdef_class(full, g1) == 3 or otl.gdef_class(full, g2) == 3:
+                    continue
+                xa = otl.eval_pair_across(full, g1, m, g2, tag)
+                xb = otl.eval_pair_across(sub, g1, m, g2, tag)
+                if xa != xb:
+                    raise Violation("kerning between remaining glyphs across a remaining non-spacing mark changed by skipping other glyphs", tag=tag, run=[g1, m, g2], without_skip=xa, with_skip=xb, skip=skip)
+                nacross[0] += 1
             ma = otl.eval_attach(full, g1, g2, tag)
             mb = otl.eval_attach(sub, g1, g2, tag)
             if ma != mb:
                 raise Violation("mark attachment between remaining glyphs changed by skipping other glyphs", tag=tag, pair=[g1, g2], without_skip=ma, with_skip=mb)
     ctx.count("layout-pairs-compared", npairs)
+    if nacross[0]:
+        ctx.count("pairs-compared-across-a-non-spacing-mark", nacross[0])
+        ctx.label("kerning-across-non-spacing-mark")
+    if any(width[n] and n in c05.MARKS for n in skip) and "public.openTypeCategories" in spec["lib"]:
+        ctx.label("skipped-spacing-mark")
     if any(m in skip for ms in spec["groups"].values() for m in ms):
         ctx.label("skipped-in-kerning-group")
         ctx.nontrivial()
@@ -367,9 +405,12 @@ def run_variable_sparse(case, ctx):
     except Cu2QuError:
         raise Discard("cu2qu could not approximate a curve")
     common_absence(full, sub, skip)
-    locs = sorted({0, 1000, fam["sparse"]["loc"]["Weight"], 150, 850})
-    for w in locs:
-        loc = {"wght": w}
+    two = len(fam["axes"]) > 1
+    locs = [{"wght": w} for w in sorted({0, 1000, fam["sparse"]["loc"]["Weight"], 150, 850})]
+    if two:
+        locs = [dict(l, slnt=0) for l in locs] + [{"wght": fam["sparse"]["loc"]["Weight"], "slnt": -5}, {"wght": 0, "slnt": -10}, {"wght": 1000, "slnt": -10}]
+        ctx.label("sparse-master-at-zero-coordinate-of-second-axis")
+    for loc in locs:
         gsa = full.getGlyphSet(location=loc)
         gsb = sub.getGlyphSet(location=loc)
         for n in sub.getGlyphOrder():
